@@ -1661,6 +1661,7 @@ class InvariantLoop(LoopSpec):
     def run_while(self, interp, s, fr):
         c = ctx()
         get = lambda n: fr.lookup(n)
+        c.ghost["frame_get"] = get          # contracts may read the loop's locals (e.g. at a raise)
         tag = f"{fr.fn_name.split('.')[-1]}:{s.lineno}"
         c.prove(f"inv-entry:{self.name}@{tag}", self.inv(get, interp), kind="invariant")
         names = sorted(assigned_names(s.body))
